@@ -14,10 +14,18 @@ EVID = os.path.join(ROOT, "evidence")
 REPLAYS = os.path.join(ROOT, "replays")
 
 
-def _config_child(module_name, cfg, queries, Ks, timeout_s, seed, conn, extra_module=None, faults_may_block=False):
+def _config_child(module_name, cfg, queries, Ks, timeout_s, seed, conn, extra_module=None, faults_may_block=False, budget_s=None):
     res = {"cfg": cfg, "ok": False}
     t0 = time.time()
     timeout_s = cfg.get("timeout_s", timeout_s)
+    deadline = t0 + budget_s if budget_s else None
+
+    def tmo():
+        # per-query time-out, shrunk so that the configuration ends (with its partial results) before the wall limit
+        if deadline is None:
+            return timeout_s
+        return max(5, min(timeout_s, deadline - time.time() - 30))
+
     try:
         os.environ["VF_BMC_W"] = str(cfg.get("W", 4))
         import resource
@@ -58,7 +66,7 @@ def _config_child(module_name, cfg, queries, Ks, timeout_s, seed, conn, extra_mo
         tried = []
         fixed_K = cfg.get("fixed_K")
         for K in (() if fixed_K else Ks):
-            r = driver.check(S, K, which=("unwind",), timeout_s=timeout_s, seed=seed, context_bound=cfg.get("context_bound"))["unwind"]
+            r = driver.check(S, K, which=("unwind",), timeout_s=tmo(), seed=seed, context_bound=cfg.get("context_bound"))["unwind"]
             tried.append({"K": K, "result": r["result"], "time_s": r["time_s"], "flags": r.get("flags")})
             if r["result"] == "sat" and "prefix_schedule" not in res and not r.get("flags"):
                 # an arbitrary K-step prefix of some execution: used for model-vs-implementation conformance (replayed on real code)
@@ -83,15 +91,17 @@ def _config_child(module_name, cfg, queries, Ks, timeout_s, seed, conn, extra_mo
             nofault = [z3.Not(z3.Bool(n + "@0")) for n in S.vars if n.startswith("fault.")]
             if nofault:
                 wit_extra = z3.And(wit_extra, *nofault) if wit_extra is not None else z3.And(nofault)
-        out = driver.check(S, K, which=which, timeout_s=timeout_s, seed=seed, witness_extra=wit_extra, assert_extra=extra, context_bound=cfg.get("context_bound"))
+        out = {}
+        for q1 in which:
+            out.update(driver.check(S, K, which=(q1,), timeout_s=tmo(), seed=seed, witness_extra=wit_extra, assert_extra=extra, context_bound=cfg.get("context_bound")))
         for q, r in out.items():
             res["queries"][q] = r
         if fixed_K:
-            r = driver.check(S, K, which=("unwind",), timeout_s=timeout_s, seed=seed, context_bound=cfg.get("context_bound"))["unwind"]
+            r = driver.check(S, K, which=("unwind",), timeout_s=tmo(), seed=seed, context_bound=cfg.get("context_bound"))["unwind"]
             res["unwind"] = [{"K": K, "result": r["result"], "time_s": r["time_s"], "flags": r.get("flags")}]
             res["unwind_ok"] = r["result"] == "unsat"
         if cfg.get("cross_check_por"):
-            out2 = driver.check(S, K, which=[q for q in which if q != "witness"], timeout_s=timeout_s, seed=seed, por=False)
+            out2 = driver.check(S, K, which=[q for q in which if q != "witness"], timeout_s=tmo(), seed=seed, por=False)
             res["no_por"] = {q: {"result": r["result"], "time_s": r["time_s"]} for q, r in out2.items()}
         res["ok"] = True
     except BaseException as e:  # noqa
@@ -113,7 +123,7 @@ def run_configs(module_name, cfgs, queries, Ks, timeout_s, seed=0, nproc=None, w
         while pending and len(live) < nproc:
             i = pending.pop()
             a, b = ctx.Pipe(duplex=False)
-            p = ctx.Process(target=_config_child, args=(module_name, cfgs[i], queries, cfgs[i].get("Ks", Ks), timeout_s, seed, b, extra_module, faults_may_block), daemon=True)
+            p = ctx.Process(target=_config_child, args=(module_name, cfgs[i], queries, cfgs[i].get("Ks", Ks), timeout_s, seed, b, extra_module, faults_may_block, (wall_limit * 0.92 if wall_limit else None)), daemon=True)
             p.start()
             b.close()
             live[i] = (p, a, time.time())
